@@ -190,6 +190,7 @@ class Server(object):
         raise NotImplementedError
 
     def _authenticate_and_serve_client(self, sock):
+        sock2 = sock
         try:
             if self.authenticator:
                 addrinfo = sock.getpeername()
@@ -200,21 +201,26 @@ class Server(object):
                     return
                 else:
                     self.logger.info("%s authenticated successfully", addrinfo)
+                if sock2 is not sock:
+                    # the authenticator handed back another socket object (SSL wrapping does): that is the
+                    # one the client is served on, so that is the one close() has to find and shut down
+                    self.clients.add(sock2)
+                    self.clients.discard(sock)
             else:
                 credentials = None
-                sock2 = sock
             try:
                 self._serve_client(sock2, credentials)
             except Exception:
                 self.logger.exception("client connection terminated abruptly")
                 raise
         finally:
-            try:
-                sock.shutdown(socket.SHUT_RDWR)
-            except Exception:
-                pass
-            closing(sock)
-            self.clients.discard(sock)
+            for s in (sock2, sock) if sock2 is not sock else (sock,):
+                try:
+                    s.shutdown(socket.SHUT_RDWR)
+                except Exception:
+                    pass
+                closing(s)
+                self.clients.discard(s)
 
     def _serve_client(self, sock, credentials):
         addrinfo = sock.getpeername()
